@@ -379,6 +379,24 @@ func Events() string { return "" }
 // satisfy size*elemsize <= k*l + c for all inputs.
 func AllocBudget(l, k, c int) {}
 
+// OnWait models "another thread": under the executor, each of the next `budget` blocking
+// points of the logical thread (sync.Cond.Wait, time.Sleep) first runs f — with the
+// condition's mutex released — and then returns. Natively a goroutine calls f `budget`
+// times, 40 ms apart, starting 40 ms from now.
+func OnWait(budget int, f func()) {
+	go func() {
+		for i := 0; i < budget; i++ {
+			time.Sleep(40 * time.Millisecond)
+			f()
+		}
+	}()
+}
+
+// SleepMayReturnEarly weakens the environment model: time.Sleep(d) then advances the
+// virtual clock by an arbitrary amount >= 0 instead of >= d (more behaviours; safety
+// properties proved under it hold a fortiori). Natively a no-op.
+func SleepMayReturnEarly() {}
+
 // ClockNow returns a virtual, non-decreasing clock value (milliseconds).
 func ClockNow() int64 {
 	d := int64(nextU("clk"))
